@@ -31,10 +31,15 @@ ADMITTED_GAPS = {'gap:col:before-settings', 'gap:table:before-brace', 'gap:enum:
                  'gap:group:before-brace', 'gap:project:before-brace', 'gap:sticky:before-brace', 'gap:ref:before-brace',
                  'gap:index:before-settings', 'gap:enumitem:before-settings', 'gap:ref:before-settings',
                  'gap:settings:column', 'gap:settings:table', 'gap:settings:index', 'gap:settings:ref', 'gap:settings:group',
-                 'gap:group:before-settings'}
+                 'gap:group:before-settings',
+                 # after the colon of a setting (calibrated the same way: 0 of 1738 rejected on the current tree)
+                 'gap:colon:note', 'gap:colon:default', 'gap:colon:ixname', 'gap:colon:ixtype', 'gap:colon:headercolor', 'gap:colon:color',
+                 'gap:colon:update', 'gap:colon:delete'}
 HOSTILE = ["it's", 'say "hi"', '{x} {0} {}', 'Table fake { id int }', 'CREATE TABLE fake (id int);', '; DROP', "'''", '`tick`',
            '[note: \'x\']', '}', '{', ']', 'Ref: a.b > c.d', '-- dashes', '// slashes', 'é 名 😀', '%s %d', 'back\\slash',
-           'exported to C:\\dumps\\', 'ends with a backslash \\', '\\', 'line continues \\ ', '// // twice', '-- -- twice', '/', '*', '/*', '#', '////']
+           'exported to C:\\dumps\\', 'ends with a backslash \\', '\\', 'line continues \\ ', '// // twice', '-- -- twice', '/', '*', '/*', '#', '////',
+           'pk', 'unique', 'not null', 'increment', 'null', 'primary key', "note: 'x'", 'ref: > t.id', 'default: 1', 'cascade', 'no action', '[pk]', 'as x',
+           'generated from migrations/*.sql', 'was: x /* old', '/* /*', 'indexes {', 'Note: \'n\'', 'headercolor: #fff', 'name: \'n\'', 'type: hash']
 
 
 def comment_payloads(rng, kind, n):
